@@ -67,6 +67,7 @@ type Result struct {
 	BuildErr           error                    // BuildHandshakeState failed (no handshake attempted)
 	View               tls.VerifClientView      // client's internal view after BuildHandshakeState
 	KeyShareKeys       *tls.KeySharePrivateKeys // private keys retained by ApplyPreset (nil for TLS 1.2-only parrots)
+	KeyShape           string                   // ShapeTerm(KeyShareKeys) taken BEFORE the handshake (a HelloRetryRequest replaces the keys)
 	HasCompressCertExt bool                     // a UtlsCompressCertExtension is among UConn.Extensions
 	Spec               *tls.ClientHelloSpec     // the spec in force (UTLSIdToSpec(ID) or Opts.Spec), nil for HelloGolang/randomized
 	ClientErr          error
@@ -197,6 +198,7 @@ func Run(o Opts) *Result {
 	}
 	res.View = tls.VerifClientViewOf(uc)
 	res.KeyShareKeys = uc.HandshakeState.State13.KeyShareKeys
+	res.KeyShape = ShapeTerm(res.KeyShareKeys)
 	for _, e := range uc.Extensions {
 		if _, ok := e.(*tls.UtlsCompressCertExtension); ok {
 			res.HasCompressCertExt = true
